@@ -24,6 +24,13 @@ META = {
 
 NODE_CAP = 100000
 
+_PRIM = {'r2': 'linear_r2_points', 'rmspe': 'rmspe_points', 'rmsle': 'rmsle_points',
+         'smape': 'smape_points', 'rpd': 'rpd_points'}
+
+
+def _cost_fn(costname):
+    return install.orig('linear_fit', _PRIM[costname])
+
 
 class _Explainer:
     def __init__(self, mods, pts, retained, t, distname, costname):
@@ -35,7 +42,8 @@ class _Explainer:
         self.cost = cost(mods, costname)
         self.lf = mods['linear_fit']
         self.fit = install.orig('linear_fit', 'linear_fit_points')
-        self.ccc = install.orig('rdp', 'compute_cost_coef')
+        # the metric is dispatched by the monitor itself, so a wrong dispatch table in rdp.py is observable
+        self.ccc = _cost_fn(costname)
         self.dist = install.orig('linear_fit', 'shortest_distance_points' if distname == 'shortest'
                                  else 'perpendicular_distance_points')
         self.nodes = 0
@@ -48,7 +56,7 @@ class _Explainer:
         if len(pt) <= 2:
             r = 1.0 if self.costname == 'r2' else 0.0
         else:
-            r = self.ccc(pt, self.fit(pt), self.cost)
+            r = self.ccc(pt, self.fit(pt))
         return (r < self.t if self.costname == 'r2' else r >= self.t), r
 
     def explain(self, a, b):
@@ -142,13 +150,13 @@ def _ladder(mods, pts, costname):
     """Costs of the whole curve and of a few sub-ranges: thresholds near them hit every outcome class."""
     vals = []
     fit = install.orig('linear_fit', 'linear_fit_points')
-    ccc = install.orig('rdp', 'compute_cost_coef')
+    ccc = _cost_fn(costname)
     n = len(pts)
     for (a, b) in [(0, n - 1), (0, n // 2), (n // 2, n - 1), (n // 4, 3 * n // 4)]:
         if b - a >= 2:
             pt = pts[a:b + 1]
             try:
-                v = float(ccc(pt, fit(pt), cost(mods, costname)))
+                v = float(ccc(pt, fit(pt)))
             except Exception:
                 continue
             if np.isfinite(v):
